@@ -50,9 +50,16 @@ termination_by fuel => fuel
 
 def safeString (bs : Bytes) : Bytes := safeStringGo (bs.length + 1) bs false
 
+/-- types.go:fixedLengths restricted to the oids this local model decodes (0 = not a fixed-width type here) -/
+def localFixedLen (oid : Int) : Nat :=
+  if oid = 16 ∨ oid = 18 then 1 else if oid = 21 then 2 else if oid = 23 ∨ oid = 26 then 4
+  else if oid = 20 then 8 else if oid = 19 then 64 else 0
+
 /-- DecodeType on the oids listed above -/
 def dec : Dec := fun data oid =>
   if data.length = 0 then pure .nil
+  -- decodeScalar: `if n, ok := fixedLengths[oid]; ok && len(data) < n { return nil }` (scalars fix 08, arrays fix 05)
+  else if localFixedLen oid > data.length then pure .nil
   else if oid = 16 then do pure (.bool ((← idx data 0) != 0))
   else if oid = 17 then pure (.str ([0x5c, 0x78] ++ strBytes (hexOf data)))   -- fmt.Sprintf("\\x%x", data)
   else if oid = 18 then do pure (.str (← sliceTo data 1))
